@@ -1,0 +1,25 @@
+//go:build verif
+
+package routing
+
+import "lunar/engine/metrics"
+
+// VerifC08SetupStreams is an exporting shim for the external verification
+// harness (property C08). It performs the streams branch of Setup() without
+// the OpenTelemetry provider, the metrics HTTP server and the doctor, so that
+// the real /configuration, /apply_flows and /load_flows handlers registered by
+// SetHandleRoutes and the real SPOE Handler can be driven in-process.
+// No behaviour of its own: every call below is the one Setup() makes.
+func (rd *HandlingDataManager) VerifC08SetupStreams() error {
+	rd.isStreamsEnabled = true
+	if err := rd.initializeStreams(); err != nil {
+		return err
+	}
+	var err error
+	rd.metricManager, err = metrics.NewMetricManager()
+	if err != nil {
+		return err
+	}
+	rd.metricManager.UpdateMetricsForFlow(rd.stream)
+	return nil
+}
